@@ -150,6 +150,12 @@ func valueRoots(v ssa.Value, through func(callee string) bool) []Root {
 				out = append(out, Root{Kind: "global", V: a})
 			case *ssa.Alloc:
 				sts := storesTo(a)
+				/* A variable whose address was put into a map made here
+				(dests := map[string]*[]byte{"cert": &certB, …}): what is
+				stored through an element of that map may land in it. */
+				for _, st := range storesThroughMaps(a) {
+					sts = append(sts, st)
+				}
 				if 0 == len(sts) {
 					out = append(out, Root{Kind: "alloc", V: a})
 				}
@@ -476,5 +482,44 @@ func (p *Prog) deepRoots(v ssa.Value, accept func(v ssa.Value) bool) []Root {
 		}
 	}
 	walk(v, 0)
+	return out
+}
+
+// storesThroughMaps: the stores "*m[k] = v" in a's function, for the maps made
+// there into which a's address was put.
+func storesThroughMaps(a *ssa.Alloc) []*ssa.Store {
+	var out []*ssa.Store
+	if nil == a.Referrers() {
+		return nil
+	}
+	for _, ref := range *a.Referrers() {
+		mu, ok := ref.(*ssa.MapUpdate)
+		if !ok || mu.Value != ssa.Value(a) {
+			continue
+		}
+		mm, ok := resolveCell(mu.Map).(*ssa.MakeMap)
+		if !ok {
+			continue
+		}
+		for _, f := range withAnons(a.Parent()) {
+			eachInstr(f, func(i ssa.Instruction) {
+				st, ok := i.(*ssa.Store)
+				if !ok {
+					return
+				}
+				addr := stripConv(st.Addr, false)
+				if ex, isEx := addr.(*ssa.Extract); isEx {
+					addr = ex.Tuple
+				}
+				lk, isLk := addr.(*ssa.Lookup)
+				if !isLk {
+					return
+				}
+				if m2, isM := resolveCell(resolveFree(lk.X)).(*ssa.MakeMap); isM && m2 == mm {
+					out = append(out, st)
+				}
+			})
+		}
+	}
 	return out
 }
